@@ -43,9 +43,12 @@ EXPLANATION = (
     "= N (no leak on any exit path); None = no semaphore; the registry entry only disappears when it equals a fresh semaphore; actions of "
     "different instances commute and never change each other's state or enabledness; FIFO wake order, no barging, no lost wake-up; progress: a "
     "helpful action is always enabled while a run waits (N>=1) and the measure 2*(pending up to r)+(woken) bounds the helpful actions that can "
-    "happen before r is woken; run ids unique; the FIFO ready-queue layer used by the driver only performs LTS actions. Tie: (gen) the source of "
+    "happen before r is woken; run ids unique; the FIFO ready-queue layer used by the driver only performs LTS actions; runs started from inside "
+    "a step of a run that holds its slot (nested starts, same or other instance) add no reachable state, keep the bound, and with all N slots "
+    "taken such a run queues as a pending waiter. Tie: (gen) the source of "
     "_maybe_acquire_max_concurrent_runs / run_with_concurrency_limit re-extracted into C30_source_shape; (K1) real Workflow instances on the real "
-    "BasicRuntime under the virtual-time loop with gate-controlled steps, scheduler-chosen starts/finishes/failures/time-outs/hard and soft "
+    "BasicRuntime under the virtual-time loop with gate-controlled steps, scheduler-chosen starts (from top-level code and NESTED: the step of "
+    "an executing run, or a task it spawned, calls run() of its own or another instance, fire-and-forget or awaited)/finishes/failures/time-outs/hard and soft "
     "cancels/snipes/instance replacement, gc.collect() after every op: semaphore value, waiter queue, executing runs and outcomes compared with "
     "the model driver after every op; (K2) asyncio.Semaphore itself stepped one ready handle at a time against the model's micro actions incl. "
     "the FIFO order of the ready queue. Search: monitors on step entry/exit events and quiescent snapshots (bound, step outliving its run, "
@@ -67,6 +70,11 @@ ASSUMPTIONS = [
     "is not mutated after construction",
     "CPython 3.12 asyncio.Semaphore / Task.cancel semantics are transcribed by hand and validated by K2 on the interpreter that runs the check; "
     "real threads, other event loops and other runtimes (DBOS) are out of scope",
+    "nested starts: the model lets any run inside its limit start runs of any instance and treats the call exactly like a top-level start (the code "
+    "passes nothing about the caller to the limit: C30_source_shape pins that body); the harness makes the call from the step coroutine or from a "
+    "task created by it, not from threads or executor callbacks. A step that AWAITS a run of an instance whose slots are all held by runs "
+    "that themselves wait (e.g. its own instance at limit 1) deadlocks by design; the generator avoids exactly these (decided by simulating the "
+    "specified N-slot FIFO semantics on the harness's own bookkeeping), so 'every started run eventually executes' is checked for all others",
     "K1 compares states at quiescent points only; the order of semaphore events inside one loop run is the model's FIFO ready queue, and a run "
     "function's exit is assumed to come after everything that was ready when its gate opened",
 ]
@@ -574,7 +582,9 @@ def _run(env: Env) -> Outcome:
     prio = ["C30/bound_exceeded", "C30/step_outlives_run", "C30/instances_interfere", "C30/started_run_never_executed", "C30/fifo_violated",
             "C30/waits_with_free_permit", "C30/permit_leak", "C30/unlimited_run_waits", "C30/conservation", "C30/registry_lost_live_semaphore"]
     base = lambda v: v.signature.split("[")[0]  # noqa: E731
+    # (a violation that shows without nested starts is reported before one whose runs were started from inside steps)
     out.violations.sort(key=lambda v: (prio.index(base(v)) if base(v) in prio else len(prio),
+                                       1 if "[" in v.signature else 0,
                                        1 if any(o[0] == "mk" and o[2] == 0 for o in v.replay.get("ops", [])) else 0,
                                        len(json.dumps(v.replay))))
 
